@@ -68,7 +68,7 @@ def generate(rng: random.Random, tier: str) -> dict:
                 events.append({"t": max(0, t) + rng.randrange(0, 30), "tie": 0, "hops": 0, "kind": "answer", "caller": i, "err": False})
     for _ in range(rng.choice([0, 0, 1, 2, 4])):
         events.append({"t": rng.randrange(0, 3000), "tie": rng.choice([0, 2]), "hops": 0,
-                       "kind": rng.choice(["notification", "foreign_response"])})
+                       "kind": rng.choice(["notification", "foreign_response", "null_id_error"])})
     events.sort(key=lambda e: e["t"])
     regime = None
     r = rng.random()
@@ -113,6 +113,7 @@ def generate(rng: random.Random, tier: str) -> dict:
         for i, c in enumerate(callers):
             c["mid"] = rng.choice([f"p{i}", f"req-{i}", 100 + i])  # distinct also as strings (the registry is keyed by str(id))
         reuse = rng.random() < 0.3
+        abandoned = rng.choice([0, 0, 40, 31, 64])
         if reuse:
             # a server that answers one id twice plus a client that reuses that id is the server's (and the reuser's) problem: one answer per request
             seen_c, kept = set(), []
@@ -125,6 +126,7 @@ def generate(rng: random.Random, tier: str) -> dict:
             events = kept
     else:
         reuse = False
+        abandoned = 0
     if regime is None and rng.random() < 0.06:
         # one caller; the server answers inside a JSON-RPC batch whose first member is an unrelated notification (no version negotiated: batches are legal)
         regime = "batch_leading_notification"
@@ -140,7 +142,7 @@ def generate(rng: random.Random, tier: str) -> dict:
         post_lat = rng.choice([1, 1, 30, 300])  # a slow acknowledgement lets the event overtake the 202
     for k, e in enumerate(events):
         e["m"] = f"mk{k}"
-    return {"v": 1, "reuse_id": reuse, "post_lat": post_lat, "uuid_seed": rng.getrandbits(40), "mode": rng.choice(["parse_message", "model_validate"]),
+    return {"v": 1, "abandoned": abandoned, "reuse_id": reuse, "post_lat": post_lat, "uuid_seed": rng.getrandbits(40), "mode": rng.choice(["parse_message", "model_validate"]),
             "carrier": carrier, "regime": regime, "coalesce": rng.random() < 0.6,
             "callers": callers, "events": events}
 
@@ -221,6 +223,11 @@ def execute(scn: dict) -> dict:
                     await stack.enter_async_context(client)
                     r, w = client.get_streams()
                     st["_client"] = client
+                    for q in range(scn.get("abandoned", 0)):
+                        # requests of the past that were never answered: their callers timed out and nobody unregistered the streams
+                        client.new_request_stream(f"gone-{q}")
+                    if scn.get("abandoned"):
+                        sim.fault("abandoned_per_request_registrations")
                 else:
                     r, w = await stack.enter_async_context(stdio.stdio_client(StdioParameters(command="sim-child", args=[])))
                 child = factory.children[0]
@@ -314,6 +321,9 @@ def execute(scn: dict) -> dict:
                     data = {"jsonrpc": "2.0", "id": rid, "error": {"code": -32000 - ev["caller"], "message": ev["m"]}}
                 else:
                     data = {"jsonrpc": "2.0", "id": rid, "result": {"marker": ev["m"], "for": ev["caller"]}}
+            elif ev["kind"] == "null_id_error":
+                # what a server sends when it could not even read the id of something it was sent: addressed to nobody
+                data = {"jsonrpc": "2.0", "id": None, "error": {"code": -32700, "message": "Parse error " + ev["m"]}}
             elif ev["kind"] == "notification":
                 data = {"jsonrpc": "2.0", "method": "notifications/message", "params": {"data": ev["m"]}}
             else:
